@@ -20,43 +20,121 @@ def mergeTags (pa pb : Fib Int Nat) (rawA rawB : Nat) : List String :=
    | some x, some y => if x < y then ["tailB"] else if y < x then ["tailA"] else ["tailNone"]
    | _, _ => [])
 
+/-- what `__iter__` presents, with payload references: `some pos` = the operand's stored payload at
+    that position, `none` = a freshly synthesised default.  Format "C": the non-empty stored elements;
+    format "U" with shape `n`: every coordinate `0..n-1` (stored payload, explicit defaults included,
+    or a fresh default) -/
+def presentRef (fmt : String) (shape : Nat) (dflt : Int) (d : Nat) (f : T (d + 1)) : Fib Int (Option Nat) :=
+  if fmt == "U" then
+    (List.range shape).map (fun (n : Nat) =>
+      let c : Int := Int.ofNat n
+      let l := (show List (Int × T d) from f)
+      let i := lowerBound l c
+      (c, match l[i]? with | some e => if e.1 = c then some i else none | none => none))
+  else (presentPos dflt d f).map (fun e => (e.1, some e.2))
+
+def rawRef (d : Nat) (f : T (d + 1)) : Fib Int Nat :=
+  ((show List (Int × T d) from f).zipIdx).map (fun e => (e.1.1, e.2))
+
+def optPosJson (o : Option (Option Nat)) : Json :=
+  match o with
+  | some (some p) => jNat p
+  | _ => jInt (-1)
+
+def handleNary (j : Json) (op : String) : Except String Verdict := do
+  let d ← fNat j "d"
+  let dflt := fIntD j "dflt" 0
+  let opsJ ← fArr j "ops"
+  let ops ← opsJ.mapM (parseTree (d + 1))
+  if !(ops.all (wfB (d + 1))) || ops.isEmpty then return { agree := true, spec := true, tags := ["OUT_OF_MODEL"] }
+  let impl ← fArr j "impl"
+  let pres := ops.map (presentPos dflt d)
+  let tags := [s!"k{ops.length}"] ++ (if pres.any (·.isEmpty) then ["some-empty"] else [])
+  match op, pres with
+  | "nand", a :: rest =>
+    let rows ← impl.mapM (fun r => do
+      match (← asList r) with
+      | [c, ps] => do pure ((← c.getInt?), (← asInts ps).map (·.toNat))
+      | _ => throw "nand row")
+    let m := naryAnd a rest
+    pure { agree := decide (m = rows), spec := decide (rows = naryAndSpec a rest),
+           model := jList (m.map (fun r => jList [jInt r.1, jList (r.2.map jNat)])),
+           tags := tags ++ (if m.isEmpty then ["empty-result"] else ["nonempty-result"]) }
+  | "nor", a :: rest =>
+    let rows ← impl.mapM (fun r => do
+      match (← asList r) with
+      | [c, m, ps] => do pure ((← c.getInt?), (← m.getStr?), (← asInts ps).map optPos)
+      | _ => throw "nor row")
+    let m := naryOr a rest
+    let rowsP : Fib Int (List (Option Nat)) := rows.map (fun r => (r.1, r.2.2))
+    let maskOk := rows.all (fun r => r.2.1 == naryMask r.2.2)
+    pure { agree := decide (m = rowsP) && maskOk, spec := naryOrSpecB (a :: rest) rowsP && maskOk,
+           model := jList (m.map (fun r => jList [jInt r.1, Json.str (naryMask r.2), jList (r.2.map posJson)])),
+           tags := tags ++ (if m.isEmpty then ["empty-result"] else ["nonempty-result"]) }
+  | "lf", a :: _ =>
+    -- followers are searched by position in their raw stored elements
+    let followers := (ops.drop 1).map (rawRef d)
+    let rows ← impl.mapM (fun r => do
+      match (← asList r) with
+      | [c, pa, ps] => do pure ((← c.getInt?), ((← pa.getNat?), (← asInts ps).map optPos))
+      | _ => throw "lf row")
+    let m := leaderFollower a followers
+    let spec := a.map (fun e => (e.1, (e.2, followers.map (fun b => lookup b e.1))))
+    pure { agree := decide (m = rows), spec := decide (rows = spec),
+           model := jList (m.map (fun r => jList [jInt r.1, jNat r.2.1, jList (r.2.2.map posJson)])),
+           tags := tags ++ (if rows.any (fun r => r.2.2.any (·.isNone)) then ["follower-absent"] else []) }
+  | _, _ => throw s!"C04: bad n-ary op {op}"
+
 def handleC04 (j : Json) : Except String Verdict := do
   let op ← fStr j "op"
+  if op == "nand" || op == "nor" || op == "lf" then return (← handleNary j op)
   let d ← fNat j "d"
   let dflt := fIntD j "dflt" 0
   let a ← fTree j "a" (d + 1)
   let b ← fTree j "b" (d + 1)
   let impl ← fArr j "impl"
-  let pa := presentPos dflt d a
-  let pb := presentPos dflt d b
+  let fa := fStrD j "fa" "C"; let fb := fStrD j "fb" "C"
+  let sa := (fNat j "sa").toOption.getD 0; let sb := (fNat j "sb").toOption.getD 0
+  let pa := presentRef fa sa dflt d a
+  let pb := presentRef fb sb dflt d b
   let pre := wfB (d + 1) a && wfB (d + 1) b
   if !pre then return { agree := true, spec := true, tags := ["OUT_OF_MODEL"] }
-  let tags := mergeTags pa pb (show List (Int × T d) from a).length (show List (Int × T d) from b).length
+  let tags := mergeTags (pa.map (fun e => (e.1, 0))) (pb.map (fun e => (e.1, 0)))
+      (show List (Int × T d) from a).length (show List (Int × T d) from b).length ++
+    (if fa == "U" then ["fmtU-A"] else []) ++ (if fb == "U" then ["fmtU-B"] else [])
+  let opt (i : Int) : Option Nat := optPos i
   match op with
   | "and" =>
     let rows ← impl.mapM (fun r => do
       match (← asInts r) with
-      | [c, ia, ib] => pure (c, (ia.toNat, ib.toNat))
+      | [c, ia, ib] => pure (c, (opt ia, opt ib))
       | _ => throw "and row")
     let m := andMerge pa pb
-    let out := jList (m.map (fun r => jInts [r.1, r.2.1, r.2.2]))
+    let out := jList (m.map (fun r => jList [jInt r.1, posJson r.2.1, posJson r.2.2]))
     pure { agree := decide (m = rows), spec := decide (rows = andSpec pa pb), model := out, tags }
   | "sub" =>
     let rows ← impl.mapM (fun r => do
       match (← asInts r) with
-      | [c, ia] => pure (c, ia.toNat)
+      | [c, ia] => pure (c, opt ia)
       | _ => throw "sub row")
     let m := subMerge pa pb
-    let out := jList (m.map (fun r => jInts [r.1, r.2]))
+    let out := jList (m.map (fun r => jList [jInt r.1, posJson r.2]))
     pure { agree := decide (m = rows), spec := decide (rows = subSpec pa pb), model := out, tags }
   | "or" | "xor" =>
     let rows ← impl.mapM (fun r => do
       match (← asList r) with
       | [c, m, ia, ib] => do
-        pure ((← c.getInt?), ((← maskOfStr (← m.getStr?)), optPos (← ia.getInt?), optPos (← ib.getInt?)))
+        -- absent side: `none`; present side: `some ref` where ref itself may be a fresh default (U format)
+        let mk ← maskOfStr (← m.getStr?)
+        let ra := opt (← ia.getInt?); let rb := opt (← ib.getInt?)
+        let sideA : Option (Option Nat) := if mk == .B then none else some ra
+        let sideB : Option (Option Nat) := if mk == .A then none else some rb
+        -- an absent side must have been delivered as a fresh default
+        if (mk == .B && ra.isSome) || (mk == .A && rb.isSome) then throw "absent side delivered a stored payload"
+        pure ((← c.getInt?), (mk, sideA, sideB))
       | _ => throw "or row")
     let m := if op == "or" then orMerge pa pb else xorMerge pa pb
-    let out := jList (m.map (fun r => jList [jInt r.1, Json.str r.2.1.toString, posJson r.2.2.1, posJson r.2.2.2]))
+    let out := jList (m.map (fun r => jList [jInt r.1, Json.str r.2.1.toString, optPosJson r.2.2.1, optPosJson r.2.2.2]))
     let spec := if op == "or" then orSpecB pa pb rows else xorSpecB pa pb rows
     pure { agree := decide (m = rows), spec, model := out, tags }
   | _ => throw s!"C04: unknown op {op}"
